@@ -1797,7 +1797,9 @@ func genC03Crash(w *bufio.Writer, r *rand.Rand, id string) {
 		return genC03Val(r)
 	}
 	bigAt := r.Intn(3) // the large batch is not always the last write
+	nbatch := 0
 	emitBig := func() {
+		nbatch++
 		fmt.Fprintf(w, "%s 3\np %s %s\np %s %s\np %s %s\n", []string{"commit", "commit", "batch"}[r.Intn(3)],
 			mkTok([]byte("a")), bigVal(), mkTok([]byte("b")), bigVal(), mkTok([]byte("zz")), bigVal())
 		nw++
@@ -1816,6 +1818,7 @@ func genC03Crash(w *bufio.Writer, r *rand.Rand, id string) {
 			nw++
 		case 2, 3:
 			n := 2 + r.Intn(4)
+			nbatch++
 			fmt.Fprintf(w, "%s %d\n", []string{"batch", "commit"}[r.Intn(2)], n)
 			for j := 0; j < n; j++ {
 				if r.Intn(6) == 0 {
@@ -1838,7 +1841,18 @@ func genC03Crash(w *bufio.Writer, r *rand.Rand, id string) {
 	fmt.Fprintf(w, "crash none 0\n")
 	for d := 0; d < 7; d++ {
 		site := c03CrashSites[r.Intn(len(c03CrashSites))]
-		fmt.Fprintf(w, "crash %s %d\n", site, 1+r.Intn(3*nw))
+		// hit numbers in the range the site is actually reached: per batch entry, per batch,
+		// per write
+		hit := 1 + r.Intn(nw)
+		switch site {
+		case "wal.batch.record", "mgr.batch.insert":
+			hit = 1 + r.Intn(nbatch*3+1)
+		case "wal.batch.buffered", "wal.batch.done", "mgr.batch.wal_loaded", "mgr.batch.logged":
+			hit = 1 + r.Intn(nbatch)
+		case "mgr.schedule_flush":
+			hit = 1 + r.Intn(2)
+		}
+		fmt.Fprintf(w, "crash %s %d\n", site, hit)
 	}
 	fmt.Fprintf(w, "end\n")
 }
